@@ -241,3 +241,4 @@ extern "C" void harness_treed_shape() {
     for (size_t k = 0; k < 8; ++k) { if (k >= t64[i]->Polygon().size()) break; VA((double)t64[i]->Polygon()[k].x * 0.5 == td[i]->Polygon()[k].x && (double)t64[i]->Polygon()[k].y * 0.5 == td[i]->Polygon()[k].y); } }
   verif_reach();
 }
+
